@@ -31,10 +31,13 @@ claim('C08', 'proof', 'Coq theorems (nested induction on operator trees; finite 
       'C08_construct/_built_objects_are_members/_members_can_be_built/_cast/_guard_*: in the model of the class lattice (isinstance tables transcribed from the class statements, wrap_subformulas after fixes F8 and F10) '
       'an object can be built or cast into a logic exactly when its tree is a formula of that logic, otherwise TypeError; the modelcheck guards reject everything but state formulas. '
       'Tie: all 5986 operator trees of depth <= 2 (+ternary, sampled depth 3) x 4 language modules x {construct, mixed-language apply, cast_to x4, 3 modelcheck guards on objects and text}.')
-claim('C11', 'proof', 'Coq theorems (printer injectivity by unique decomposition of printed strings) + differential test of ==, hash, set/dict behaviour, str and clone',
+claim('C11', 'proof', 'Coq theorems (printer injectivity by unique decomposition of printed strings; clone independence and hash coherence on a heap model of formula nodes) + differential test of ==, hash, set/dict behaviour, str and clone',
       'C11_eq_iff_tree/_refl/_sym/_trans/_hash/_hash_inj/_bool/_print_injective (+ C11_reserved_refuted): printed-form equality is tree equality on formulas of one logic over non-reserved identifier atoms. '
-      'Tie: == both ways, !=, hash, len({f,g}), dict lookup, str character by character vs the model printer, clone tree/sharing/mutation-through-clone on pairs and triples from the depth<=2 enumeration.',
-      'Node sharing after clone() is a heap fact monitored at run time (id walk + mutation through the clone), not modelled.')
+      'On Model/FormHeap.v (formula nodes are heap cells): C11_clone_fresh (equal tree, every node a new cell), C11_clone_independent (in-place edits on either side never reach the other), '
+      'C11_edited_formula_hash (== implies equal hash in every heap, whatever was hashed or edited before), C11_shallow_clone_refuted, C11_cached_hash_refuted. '
+      'Tie: == both ways, !=, hash, len({f,g}), dict lookup, str character by character vs the model printer, clone tree/sharing/mutation-through-clone (objects built from formula objects and from raw str/bool operands), '
+      'formulas edited after hashing, on pairs and triples from the depth<=2 enumeration.',
+      'The heap model of formula objects is a transcription (constructors = fresh cells), tied to the tree model by theorem; node sharing of the Python objects is additionally monitored at run time (id walk + mutation through the clone).')
 claim('C14', 'proof', 'Coq theorems (constructor / clone / substructure specifications over the proved graph-construction lemmas; axiom-free) + differential test incl. aliasing monitors',
       'C14_ctor/_shape/_nonstate/_state/_clone/_substructure/_constructed_wf: Kripke(S,S0,R,L) succeeds exactly when every state has a successor (else RuntimeError); states, transitions, initial states, label sets as documented; '
       'clone and get_substructure (after fix F2) preserve labels and give exactly the induced transitions, RuntimeError exactly when the induced relation is not total. '
